@@ -1027,4 +1027,52 @@ theorem reset_keeps (s : St) (i copy n : Nat) (h : WF s) (b : Blk) (hb : s.live[
   simp only [step, hb, hcond, if_false]
   exact ⟨this.2.2.2.2.2 _ rfl, by rw [this.2.2.1, this.2.1], this.2.1, this.2.2.2.1, trivial⟩
 
+theorem readAt_zeroRange_same (m : List UInt8) (off n : Nat) (h : off + n ≤ m.length) :
+    readAt (zeroRange m off n) off n = List.replicate n 0 := by
+  unfold readAt zeroRange
+  have h1 : min n (m.length - off) = n := by omega
+  rw [h1, List.append_assoc, List.drop_append_of_le_length (by simp; omega)]
+  have h2 : (List.take off m).length = off := by simp; omega
+  rw [List.drop_of_length_le (by omega), List.nil_append]
+  rw [List.take_append_of_le_length (by simp)]
+  simp
+
+/-- "a reset keeps *exactly* the requested bytes": everything behind them is zeroed (`memset` of `MHD_pool_reset`) -/
+theorem reset_zeroes_rest (s : St) (i copy n : Nat) (h : WF s) (b : Blk) (hb : s.live[i]? = some b)
+    (hc : copy ≤ b.len) (hcn : copy ≤ n) (hn : n ≤ s.p.size) :
+    let s' := (step s (.reset (some i) copy n)).1
+    readAt s'.p.mem copy (s.p.size - copy) = List.replicate (s.p.size - copy) 0 := by
+  have hcond : ¬ (copy > b.len ∨ copy > n ∨ n > s.p.size) := by omega
+  have hbi := inside_arith (h.2.1 _ (mem_of_getElem? hb))
+  have hi := inv_arith h.1
+  simp only [step, hb, hcond, if_false]
+  have hmv := resetMove_spec s.p (some b.off) copy (by intro k hk; have : b.off = k := Option.some.inj hk; subst this; omega)
+  show readAt (reset s.p (some b.off) copy n).mem copy (s.p.size - copy) = _
+  unfold reset
+  simp only
+  by_cases hsz : s.p.size > copy
+  · rw [if_pos hsz]
+    exact readAt_zeroRange_same _ _ _ (by rw [hmv.1]; omega)
+  · have : s.p.size - copy = 0 := by omega
+    rw [this]; simp [readAt]
+
+/-- relocation never copies between overlapping ranges (`memcpy (new_blc, old, old_size)` is defined): a
+    reallocated block either stays where it is, or was empty (nothing is copied), or lies entirely behind the old one -/
+theorem realloc_move_no_overlap (s : St) (i n : Nat) (h : WF s) (b : Blk)
+    (hb : s.live[i]? = some b) (hf : b.front = true) (off len : Nat)
+    (hr : (step s (.realloc (some i) n)).2 = .block off len) :
+    off = b.off ∨ b.len = 0 ∨ b.off + b.len ≤ off := by
+  obtain ⟨bo, bl, bf⟩ := b
+  simp only at hf; subst hf
+  simp only [step, hb, Bool.not_true, Bool.false_eq_true, if_false] at hr
+  have hbin := inside_front (h.2.1 _ (mem_of_getElem? hb))
+  rcases reallocate_cases s.p bo bl n with ⟨hc, _⟩ | ⟨hc, _⟩ | ⟨hc, _⟩ | ⟨hc, _⟩
+  · simp [hc] at hr
+  · simp only [hc] at hr; injection hr with e1 e2; left; exact e1.symm
+  · simp only [hc] at hr; injection hr with e1 e2; left; exact e1.symm
+  · simp only [hc] at hr; injection hr with e1 e2
+    by_cases hz : bl = 0
+    · right; left; exact hz
+    · right; right; simp only; have := hbin.2.2.2 (by omega); omega
+
 end Mhd.Pool
